@@ -395,6 +395,10 @@ func TestZZGovcReplay(t *testing.T) {
 func init() {
 	replayDrivers["httpgrpc.(*Channel).Invoke"] = func(cc *checkCtx, rec *obRecord, f *Failure) map[string]interface{} {
 		res := map[string]interface{}{"attempted": false}
+		if strings.Contains(rec.o.Name, "the_method_name_is_appended_to_the_base_path_verbatim") {
+			res["inputs"] = map[string]interface{}{"scenario": "method names that are not registered but clean to a registered path"}
+			return runDriver(cc, modulePath+"/httpgrpc", methodPathDriver, res)
+		}
 		if strings.Contains(rec.o.Name, "a_failed_read_of_the_reply_body_is_never_a_bare_context_error") {
 			res["inputs"] = map[string]interface{}{"scenario": "the reply body's Read fails with the context error (what net/http's body does when the request context ends mid-body) and the receive of the reader goroutine's signal wins the select"}
 			return runDriver(cc, modulePath+"/httpgrpc", invokeBodyCtxErrDriver, res)
@@ -1144,5 +1148,71 @@ func init() {
 		res := map[string]interface{}{"attempted": false}
 		res["inputs"] = map[string]interface{}{"scenario": "garbage collections while the caller's last use of the stream, a RecvMsg, is blocked"}
 		return runDriver(cc, modulePath+"/httpgrpc", finalizerDriver, res)
+	}
+}
+
+const methodPathDriver = `package httpgrpc
+
+import (
+	"context"
+	"net/http"
+	"net/http/httptest"
+	"net/url"
+	"sync/atomic"
+	"testing"
+
+	"google.golang.org/grpc"
+	"google.golang.org/protobuf/types/known/emptypb"
+)
+
+// Names that are NOT the registered "/pkg.Svc/M" / "/pkg.Svc/S" but become it when a path
+// is cleaned. Such a call must fail with a status error and run no handler (the
+// in-process channel answers Unimplemented for every one of them).
+func TestZZGovcReplay(t *testing.T) {
+	var ran int32
+	mux := http.NewServeMux()
+	mux.Handle("/base/pkg.Svc/M", HandleMethod(struct{}{}, "pkg.Svc", &grpc.MethodDesc{MethodName: "M", Handler: func(srv interface{}, ctx context.Context, dec func(interface{}) error, _ grpc.UnaryServerInterceptor) (interface{}, error) {
+		atomic.AddInt32(&ran, 1)
+		return &emptypb.Empty{}, nil
+	}}, nil))
+	mux.Handle("/base/pkg.Svc/S", HandleStream(struct{}{}, "pkg.Svc", &grpc.StreamDesc{StreamName: "S", ServerStreams: true, Handler: func(srv interface{}, ss grpc.ServerStream) error {
+		atomic.AddInt32(&ran, 1)
+		return nil
+	}}, nil))
+	svr := httptest.NewServer(mux)
+	defer svr.Close()
+	u, _ := url.Parse(svr.URL + "/base")
+	ch := &Channel{Transport: http.DefaultTransport, BaseURL: u}
+	for _, name := range []string{"/x/../pkg.Svc/M", "/pkg.Svc//M", "/pkg.Svc/./M", "/pkg.Svc/M/", "/../base/pkg.Svc/M"} {
+		before := atomic.LoadInt32(&ran)
+		err := ch.Invoke(context.Background(), name, &emptypb.Empty{}, &emptypb.Empty{})
+		if err == nil || atomic.LoadInt32(&ran) != before {
+			t.Errorf("GOVC-REPLAY: VIOLATED unary call to the unregistered method name %q ran the handler of /pkg.Svc/M (err = %v)", name, err)
+		}
+	}
+	for _, name := range []string{"/x/../pkg.Svc/S", "/pkg.Svc//S", "/pkg.Svc/S/"} {
+		before := atomic.LoadInt32(&ran)
+		cs, err := ch.NewStream(context.Background(), &grpc.StreamDesc{StreamName: "S", ServerStreams: true}, name)
+		if err == nil {
+			cs.SendMsg(&emptypb.Empty{})
+			cs.CloseSend()
+			err = cs.RecvMsg(&emptypb.Empty{})
+		}
+		if atomic.LoadInt32(&ran) != before {
+			t.Errorf("GOVC-REPLAY: VIOLATED stream to the unregistered method name %q ran the handler of /pkg.Svc/S (final error %v)", name, err)
+		}
+	}
+}
+`
+
+func init() {
+	replayDrivers["httpgrpc.(*Channel).NewStream"] = func(cc *checkCtx, rec *obRecord, f *Failure) map[string]interface{} {
+		res := map[string]interface{}{"attempted": false}
+		if !strings.Contains(rec.o.Name, "the_method_name_is_appended_to_the_base_path_verbatim") {
+			res["reason"] = "no replay scenario for this obligation"
+			return res
+		}
+		res["inputs"] = map[string]interface{}{"scenario": "method names that are not registered but clean to a registered path"}
+		return runDriver(cc, modulePath+"/httpgrpc", methodPathDriver, res)
 	}
 }
